@@ -86,6 +86,15 @@ StdApply(o, op, v) ==
                [] op = "clear_hash"   -> R([u EXCEPT !.frag = Null])
     IN IF r.unspec THEN UnspecObj ELSE ValidObj(r.u)
 
+\* ---- href_from_file(path): "file://" + the path state run on the text (no query / fragment: '?' and '#'
+\* are ordinary path code points), i.e. the basic URL parser with path start state override on a file URL
+\* with an empty host; tab / newline removed, no trimming
+HrefFromFile(v) ==
+  LET c == OverrideParse(v, [EmptyUrl EXCEPT !.scheme = S_file, !.host = EmptyHost], "PathStart")
+      p == PathSerialize(c.url)
+  IN [unspec |-> c.res = "unspec",
+      s |-> <<102,105,108,101,58,47,47>> \o (IF p = <<>> THEN << 47 >> ELSE p)]
+
 \* ---- origin ----
 Origin(u) ==
   IF u.scheme = S_blob THEN
